@@ -34,11 +34,6 @@ def drive(binp, args, out, timeout=3000):
     return json.loads(p.stdout.strip().splitlines()[-1])
 
 
-def slim(evs):
-    """replay files stay readable: the ground truth of at most 12 messages around the failure is enough to re-run the case"""
-    return evs
-
-
 def replay(ctx):
     c.EVIDENCE = ctx.path("replay-evidence")      # a replay run must not overwrite the evidence of the last full run
     o = json.load(open(ctx.replay))["replay"]
@@ -62,14 +57,14 @@ def check(ctx):
     sw = c.kf_switches("C01", KFS)
     if os.environ.get("VERIF_NO_KF"):          # self-test only
         sw = {k: False for k in sw}
-    # (a) model checking: the design model satisfies the property modulo the named deviation; with the proposed repair strictly
+    # (a) model checking: the design model (with the repair of fix: e31fecc + follow-up, FixShortSerial = TRUE) satisfies the
+    # property strictly; the model of the pinned snapshot (Framing_snapshot.cfg) must still exhibit the short-serial finding
     res = c.tlc_must_pass(ctx, "framing", "Framing.tla", "Framing_quick.cfg" if quick else "Framing_thorough.cfg", timeout=3000)
-    c.tlc_must_pass(ctx, "framing-repaired", "Framing.tla", "Framing_fixed.cfg", timeout=3000)
-    strict = c.tlc(os.path.join(c.SPEC, "Framing.tla"), os.path.join(c.SPEC, "mc", "Framing_strict.cfg"), ctx.path("tlc-framing-strict"),
-                   timeout=3000, keep_log=ctx.path("tlc-framing-strict.log"))
-    ctx.extra["model_exhibits_short_serial_finding"] = strict.violation == "Property"
-    if strict.violation != "Property":
-        raise c.ToolError("Framing.tla without the deviation was expected to violate Property (model of the known finding); got %s" % strict.violation)
+    snap = c.tlc(os.path.join(c.SPEC, "Framing.tla"), os.path.join(c.SPEC, "mc", "Framing_snapshot.cfg"), ctx.path("tlc-framing-snapshot"),
+                 timeout=3000, keep_log=ctx.path("tlc-framing-snapshot.log"))
+    ctx.extra["snapshot_model_exhibits_short_serial_finding"] = snap.violation == "Property"
+    if snap.violation != "Property":
+        raise c.ToolError("Framing.tla without the repair was expected to violate Property (model of the fixed finding); got %s" % snap.violation)
     # (b) scenarios = every stream shape of the bounded model (emitted by the same run)
     shapes = c.scn_lines(res)
     scn = ctx.path("scenarios.ndjson")
@@ -133,6 +128,12 @@ def check(ctx):
     ctx.extra["kf_switches"] = sw
     ctx.extra["paths_hit"] = {k: info[k] for k in ("shapes_storage", "shapes_serial", "garbage_before", "garbage_between", "garbage_after", "trailing_short_run",
                                                    "max_payload_msgs", "empty_payload_msgs", "serial_cases", "storage_cases", "msgs")}
+    kinds = {}
+    for evs in cases.values():
+        for e in evs[1:]:
+            key = evs[0]["hdr"]["framing"] + "." + e["ev"]
+            kinds[key] = kinds.get(key, 0) + 1
+    ctx.extra["trace_events_by_kind"] = kinds
     ctx.extra["repository_files"] = info["files"]
     ctx.extra["trace_events"] = info["lines"]
     if ctx.violations:
